@@ -5,12 +5,16 @@ import (
 	"time"
 
 	"verifharness/internal/enum"
+	"verifharness/internal/lx"
 	"verifharness/internal/model"
 	"verifharness/internal/vf"
 )
 
 // c03Grammar: NT 0 = T (try form), NT 1 = S (statement), NT 2 = thrown value expression.
-func c03Grammar(maxW int) *enum.Grammar {
+func c03Grammar(maxW int) *enum.Grammar { return c03GrammarX(maxW, false) }
+
+// raw adds (rawpan!): a Go builtin registered as a bare types.Func (no binder around it) that panics.
+func c03GrammarX(maxW int, raw bool) *enum.Grammar {
 	const T, S, TV = 0, 1, 2
 	q := func(v V) V { return form("quote", v) }
 	tvals := []enum.Prod{
@@ -27,6 +31,12 @@ func c03Grammar(maxW int) *enum.Grammar {
 		leaf("'(t! 9)", q(form("t!", model.Int(9)))), leaf("(list 't! 9)", form("list", q(sym("t!")), model.Int(9))),
 		{Name: "throw", Weight: 1, Kids: []int{TV}, Build: func(k []V) V { return form("throw", k[0]) }},
 		{Name: "T", Weight: 0 + 1, Kids: []int{T}, Build: func(k []V) V { return k[0] }},
+	}
+	// a panic below a callback: apply of a bare Go function that panics (the binder around apply
+	// recovers it and must keep the panicked error reachable)
+	stmts = append(stmts, leaf("(apply rawpan! (list))", form("apply", sym("rawpan!"), form("list"))))
+	if raw {
+		stmts = append(stmts, leaf("(rawpan!)", form("rawpan!")))
 	}
 	var tries []enum.Prod
 	for nb := 0; nb <= 2; nb++ {
@@ -96,7 +106,7 @@ func init() {
 		}
 		fam := &vf.Family{
 			Name:     "try-nests",
-			Bounds:   "all try forms of weight <=5 (quick) / <=6 (thorough): 0-2 body forms, optional (catch e 1-2 forms), optional (finally 0-2 forms), statements from 14 leaves (incl. a macro that throws while expanding and a Go builtin whose error wraps a lisp error) + (throw V) over 8 thrown objects + nested try; under a prelude defining a throwing function, a throwing macro and an outer let variable",
+			Bounds:   "all try forms of weight <=5 (quick) / <=6 (thorough): 0-2 body forms, optional (catch e 1-2 forms), optional (finally 0-2 forms), statements from 15 leaves (incl. a macro that throws while expanding and a Go builtin whose error wraps a lisp error) + (throw V) over 8 thrown objects + nested try; under a prelude defining a throwing function, a throwing macro and an outer let variable",
 			Setup:    func(t string) { tier = t; rg = newEvalRig(false); rg.ntTraceOnly = true },
 			N:        func(t string) int64 { tier = t; return gOf().Count(0, wOf(t)) },
 			Describe: func(i int64) string { return c03Wrap(gOf().Unrank(0, i)).Lisp() },
@@ -129,11 +139,33 @@ func init() {
 				rgd.compareWithModel(c03Wrap(gOf().Unrank(0, i/n)), []string{"e", "x"}, r, true)
 			},
 		}
+		// bare Go functions that panic (a types.Func with no binder around it), in the body or in the
+		// handler of a try that has a finally clause, under an outer try that stops the panic: the
+		// finally body still runs exactly once, after the handler's effects. (What a handler receives for
+		// a bare panic, and a panic inside a finally body, are left open: no case looks at them.)
+		var rgr *evalRig
+		bodies := []string{"(throw 1)", "(boom!)", "(rawpan!)", "(do (t! :b) (rawpan!))", "(g)", "5"}
+		handlers := []string{"(rawpan!)", "(do (t! :h) (rawpan!))", "(gp)", "(apply rawpan! (list))", ":h", "(throw 2)"}
+		tails := []string{"(finally (t! :fin))", "(finally (t! :fin) 9)", ""}
+		rawProg := func(i int64) string {
+			bd, hd, tl := bodies[i%int64(len(bodies))], handlers[(i/int64(len(bodies)))%int64(len(handlers))], tails[i/int64(len(bodies)*len(handlers))]
+			return "(do (def g (fn [] (throw \"g\"))) (def gp (fn [] (t! :gp) (rawpan!))) (try (list :in (try " + bd + " (catch e " + hd + ") " + tl + ") (t! :after)) (catch z :outer)))"
+		}
+		famR := &vf.Family{
+			Name:     "bare-panics-in-body-and-handler",
+			Bounds:   fmt.Sprintf("%d bodies x %d handlers x %d finally clauses around a Go function registered as a bare types.Func that panics with a Go error (directly, after an effect, inside a called function, through apply), each under an outer try whose handler returns a constant", len(bodies), len(handlers), len(tails)),
+			Setup:    func(t string) { tier = t; rgr = newEvalRig(false); rgr.ntTraceOnly = true },
+			N:        func(t string) int64 { return int64(len(bodies) * len(handlers) * len(tails)) },
+			Describe: func(i int64) string { return rawProg(i) },
+			Run: func(i int64, r *vf.Rec) {
+				rgr.compareWithModel(model.FromImpl(lx.MustRead(rawProg(i))), []string{"e", "x"}, r, true)
+			},
+		}
 		return &vf.Check{
 			ID: "C03", Level: "model_checking",
 			Rule:        "every try/catch/finally nest of the bounded grammar runs on the real EVAL and on the definitional interpreter (handler value returned as a value, catch variable scoped to the handler, finally exactly once after body and handler, outcome unchanged by finally); result, thrown payload via ErrorValue, errors.Is for Go errors, and the ordered effect trace must agree; non-trivial = has effects",
 			Assumptions: []string{"a finally body that itself fails is swallowed (README: 'for side effects only')", "payload of unbound-symbol / arity / domain errors is opaque and compared by kind only"},
-			Families:    []*vf.Family{fam, famD},
+			Families:    []*vf.Family{fam, famD, famR},
 		}
 	})
 }
